@@ -42,7 +42,7 @@ type simCache struct {
 
 type cacheCounters struct {
 	Hits, Misses, Stores, FLost, FMiss, FFlush, Evict int
-	_                                          [16]int
+	_                                                 [16]int
 }
 
 func (c *simCache) my() *cacheCounters { return &c.cnt[(simsync.TaskID()+1)%len(c.cnt)] }
